@@ -40,7 +40,9 @@ def confirm(wt, which):
     def run_demo():
         if demo.endswith(".py"):
             return sh(["python3", demo, n2], cwd=wt, env=env, timeout=600)
-        return sh(["sh", demo, n2], cwd=wt, env=env, timeout=600)
+        first = open(demo, errors="replace").readline()
+        shell = "bash" if "bash" in first else "sh"
+        return sh([shell, demo, n2], cwd=wt, env=env, timeout=600)
     r = run_demo(); res["demo_with_patch_exit"] = r.returncode; res["demo_with_patch_tail"] = r.stdout[-600:]
     sh(["git", "-C", wt, "checkout", "--", "src"])
     sh("cargo build --offline --no-default-features", cwd=wt, env=env)
